@@ -42,13 +42,26 @@ def components {α} (rel : α → α → Bool) (xs : List α) : List (List α) :
 
 /-! ### the chain relation and the chain properties the theorems are stated with -/
 
-/-- fewer than `c` bases strictly between the two locations (0 if they share a base); `L = 0`: line -/
-def nearB (L c : Int) (a b : Loc) : Bool := decide (specDistFull L a b < c)
+/-- a gene read as a span: a multi-exon gene covers its introns, an origin-spanning one covers the arc
+    from its upper section over the origin to its lower section -/
+def spanParts (w : Int) (l : Loc) : List Part :=
+  if bridgesOrigin l then
+    match splitBridging l with
+    | .ok (lower, upper) => [fl (minList (upper.map (·.lo))) w, fl 0 (maxList (lower.map (·.hi)))]
+    | .error _ => l.parts
+  else [fl l.start l.end]
+
+def spanLoc (w : Int) (l : Loc) : Loc := Loc.ofParts (spanParts w l)
+
+/-- the chain relation: the two genes (as spans) share a base or have fewer than `c` bases strictly
+    between them, the shorter way round on a ring of length `L` (`L = 0`: line) -/
+def nearB (L c : Int) (a b : Loc) : Bool :=
+  sharesPts (spanLoc L a) (spanLoc L b) || decide (specDistFull L (spanLoc L a) (spanLoc L b) < c)
 
 /-- `a` and `b` are linked by a chain of `rel`-steps through members of `grp` -/
-inductive Linked {α} (rel : α → α → Prop) (grp : List α) : α → α → Prop
-  | refl (a : α) : a ∈ grp → Linked rel grp a a
-  | step {a b c : α} : Linked rel grp a b → c ∈ grp → (rel b c ∨ rel c b) → Linked rel grp a c
+inductive Linked {α} (rel : α → α → Prop) (grp : List α) (a : α) : α → Prop
+  | refl : a ∈ grp → Linked rel grp a a
+  | step {b c : α} : Linked rel grp a b → c ∈ grp → (rel b c ∨ rel c b) → Linked rel grp a c
 
 /-- `groups` are the maximal chains of `xs`: they partition `xs` (as a permutation of the input),
     none is empty, each is internally linked, and no step leads from one group to another -/
@@ -58,18 +71,14 @@ structure IsChainPartition {α} (rel : α → α → Prop) (xs : List α) (group
   linked : ∀ g ∈ groups, ∀ a ∈ g, ∀ b ∈ g, Linked rel g a b
   separated : ∀ gs₁ g gs₂, groups = gs₁ ++ g :: gs₂ → ∀ a ∈ g, ∀ g' ∈ gs₂, ∀ b ∈ g', ¬ rel a b ∧ ¬ rel b a
 
+/-- two lists related element by element, in order -/
+inductive Paired {α β} (R : α → β → Prop) : List α → List β → Prop
+  | nil : Paired R [] []
+  | cons {a b l1 l2} : R a b → Paired R l1 l2 → Paired R (a :: l1) (b :: l2)
+
 /-! ### spans -/
 
 abbrev Iv := ASV.Iv
-
-/-- a gene read as a span: a multi-exon gene covers its introns, an origin-spanning one covers the arc
-    from its upper section over the origin to its lower section -/
-def spanParts (w : Int) (l : Loc) : List Part :=
-  if bridgesOrigin l then
-    match splitBridging l with
-    | .ok (lower, upper) => [fl (minList (upper.map (·.lo))) w, fl 0 (maxList (lower.map (·.hi)))]
-    | .error _ => l.parts
-  else [fl l.start l.end]
 
 def unionCanon (w : Int) (ls : List Loc) : List Iv := canon (ls.flatMap (spanParts w))
 
